@@ -13,7 +13,9 @@ RULE = ("exhaustive: every string of length <=4 (quick and thorough; <=5 thoroug
         "U+0301} x every run layout (no runs, 1 run, every placement of 1 or 2 cuts incl. empty runs) x "
         "{width, width_at_offset(n) for 0<=n<=len+1, width_aware_slice(a:b) for all 0<=a<=b<=W+2}; the same three operations "
         "on FmtStr values that share Chunk objects by identity (f*2, f*3, f+f, join with repeated item/separator, whole-run "
-        "slices concatenated; strings <=2) and on objects from random public-API programs (common.api_pool); tie-only extras: "
+        "slices concatenated; strings <=2), on results of `observe the source -> splice/setitem k characters by k characters "
+        "of a different total width` (strings <=3, k = 1, 2) and on objects from random public-API programs with observations "
+        "interleaved (common.api_pool, also over texts with wide/combining characters); tie-only extras: "
         "None/negative/reversed bounds, int indices, control characters (width -1), the module-level width_aware_slice and "
         "interval_overlap on all integer quadruples in [-1,4]^4; .width of every string <=4 cross-checked against the cursor "
         "advance of the pyte terminal emulator. non-trivial = distinct case whose "
@@ -72,6 +74,33 @@ def mk_cases(ctx):
                     fields = shared_case_fields(spec)
                     t = text_of(fields["f"])
                     ops_for(fields, len(t), sum(wc(c) for c in t))
+    # observe the source (.width, len, .s, str, width_at_offset) -> replace k characters by k characters of a different
+    # total width (splice / setitem) -> measure the result against ITS OWN runs
+    repl = {1: list(ALPHA3), 2: ["a\uff25", "\uff25\u0301", "\u0301a", "\uff25\uff25"]}
+    for n in range(1, 5 if ctx.thorough else 4):
+        for tup in itertools.product(ALPHA3, repeat=n):
+            s = "".join(tup)
+            for ch in cut_layouts(s, PALETTE, max_cuts=1)[:1] + [[(s[:n // 2], dict(PALETTE[1])), (s[n // 2:], dict(PALETTE[2]))]]:
+                for k in (1, 2):
+                    for i in range(0, n - k + 1):
+                        for new in repl[k]:
+                            if sum(wc(x) for x in new) == sum(wc(x) for x in s[i:i + k]):
+                                continue
+                            specs = [("obs_splice", ch, new, i, i + k)]
+                            if k == 1:
+                                specs.append(("obs_setitem", ch, new, i))
+                            for spec in specs:
+                                fields = shared_case_fields(spec)
+                                t = text_of(fields["f"])
+                                ops_for(fields, len(t), sum(wc(x) for x in t))
+    for _ in range(160 if ctx.thorough else 50):
+        seed = r.randrange(1 << 30)
+        for i in range(pool_size(seed, wide=True)):
+            obj = pool_object(seed, i, wide=True)
+            fields = dict(f=wire.fmt_chunks(obj), pool=[seed, i, 1])
+            t = text_of(fields["f"])
+            if len(t) <= 7:
+                ops_for(fields, len(t), max(0, sum(max(wc(c), 0) for c in t)))
     for _ in range(120 if ctx.thorough else 40):
         seed = r.randrange(1 << 30)
         for i in range(pool_size(seed)):
